@@ -803,7 +803,11 @@ impl RLN {
         }
         let proof = ArkProof::deserialize_compressed(&mut Cursor::new(&input_byte[..128]))?;
 
-        let (proof_values, _) = deserialize_proof_values(&input_byte[128..]);
+        let (proof_values, read) = deserialize_proof_values(&input_byte[128..]);
+        // Values encoded at or above the field order are not accepted as aliases
+        if serialize_proof_values(&proof_values) != input_byte[128..128 + read] {
+            return Ok(false);
+        }
 
         let verified = verify_proof(&self.verification_key, &proof, &proof_values)?;
 
@@ -968,6 +972,10 @@ impl RLN {
             ArkProof::deserialize_compressed(&mut Cursor::new(&serialized[..128].to_vec()))?;
         all_read += 128;
         let (proof_values, read) = deserialize_proof_values(&serialized[all_read..]);
+        // Values encoded at or above the field order are not accepted as aliases
+        if serialize_proof_values(&proof_values) != serialized[all_read..all_read + read] {
+            return Ok(false);
+        }
         all_read += read;
 
         let signal_len = usize::try_from(u64::from_le_bytes(
@@ -1050,6 +1058,10 @@ impl RLN {
             ArkProof::deserialize_compressed(&mut Cursor::new(&serialized[..128].to_vec()))?;
         all_read += 128;
         let (proof_values, read) = deserialize_proof_values(&serialized[all_read..]);
+        // Values encoded at or above the field order are not accepted as aliases
+        if serialize_proof_values(&proof_values) != serialized[all_read..all_read + read] {
+            return Ok(false);
+        }
         all_read += read;
 
         let signal_len = usize::try_from(u64::from_le_bytes(
